@@ -5,6 +5,7 @@ EXTENDS AwkSem
 
 V(nm)            == [k |-> "var", name |-> nm]
 N(m)             == [k |-> "num", n |-> m]
+FN(txt)          == [k |-> "fnum", src |-> txt]      \* non-integer literal, e.g. FN("3.14159")
 S(str)           == [k |-> "str", s |-> str]
 Bin(op, l, r)    == [k |-> "bin", op |-> op, l |-> l, r |-> r]
 Cc(l, r)         == Bin("cat", l, r)
